@@ -4,6 +4,7 @@ import HapModel.Drv.C04
 import HapModel.Drv.C05
 import HapModel.Drv.C06
 import HapModel.Drv.C07
+import HapModel.Drv.C09
 import HapModel.Drv.C11
 import HapModel.Drv.C12
 import HapModel.Drv.C13
@@ -38,6 +39,7 @@ def dispatch1 (op : String) (j : Json) : R Json :=
   | "gtRestrict" => hGtRestrict j
   | "phenoParse" => hPhenoParse j
   | "uniqNames" => hUniqNames j
+  | "noiseVar" => hNoiseVar j
   | _ => throw s!"unknown op {op}"
 
 /-- {"op":"batch","reqs":[…]} → {"resps":[…]} -/
